@@ -63,8 +63,12 @@ func (m *c11FS) next(kind string) c11Outcome {
 	return o
 }
 
+// c11Errnos: what a failing file operation may answer (never ENOENT: a missing file is not a failure of remove). The choice
+// follows from the operation and the name, so a run is reproducible.
+var c11Errnos = []syscall.Errno{syscall.EIO, syscall.EPERM, syscall.ENOSPC, syscall.EACCES, syscall.ENOTSUP, syscall.EROFS, syscall.ENOSYS, syscall.EDQUOT}
+
 func c11Err(op, name string) error {
-	return &fs.PathError{Op: op, Path: name, Err: syscall.EIO}
+	return &fs.PathError{Op: op, Path: name, Err: c11Errnos[(len(op)*7+len(name))%len(c11Errnos)]}
 }
 
 func (m *c11FS) ReadDir(dirname string) ([]fs.DirEntry, error) {
